@@ -56,7 +56,7 @@ fn main() {
         match wl.as_str() {
             // upper-layer workloads observe the API; chmux hook events would only bloat their traces
             "rwlock" => install_hook_sink_for(&["rw_"]),
-            "robs_script" | "bcast" | "watch" | "typed_base" | "typed_mpsc" | "rtc" | "rtc_once" | "rfn" | "robs_chain" => {}
+            "robs_script" | "bcast" | "watch" | "typed_base" | "typed_mpsc" | "rtc" | "rtc_once" | "rfn" | "robs_chain" | "io" => {}
             _ => install_hook_sink(),
         }
         match wl.as_str() {
@@ -135,6 +135,10 @@ fn main() {
             }
             "robs_chain" => {
                 rt.block_on(robs::chain_scenario(s, get("coll", 4)));
+            }
+            "io" => {
+                let o = iochan::IoOpts { cut: get("cut", 0) != 0, place: get("place", 3) };
+                rt.block_on(iochan::scenario(s, &o));
             }
             "rfn" => {
                 rt.block_on(rtc::rfn_scenario(s, get("remote", 1) != 0, get("kind", 3)));
